@@ -175,6 +175,16 @@ BUILT = {
             'success, must-reject deviations never succeed.',
             'Termination judged by a 10 s budget (normal runs ~2 ms) and reported only if the real CLI also exceeds 60 s.',
             'DESIGN.md 3/C14'),
+    'C15': ('model_checking',
+            'schedule exploration of set-iteration order under an import-hook scheduler (deviation-bounded), plus exhaustive CLI environment product',
+            'The explorer owns the only internal source of run-to-run variation, set iteration order: every bespokeasm module is loaded '
+            'through an AST rewrite that makes each iteration of a set of hash-randomised elements a choice point; for 8 programs x 2 '
+            'formats the default schedule (replayed twice) and every schedule with one (thorough two) deviating choice point must give '
+            'identical status, image and pretty print. End to end, the same programs x formats run through the real CLI for every '
+            'combination of hash seed, working directory, include-directory order and environment.',
+            'Sets are assumed to be created by set(...)/displays/comprehensions inside bespokeasm; int-only sets are not permuted; dict '
+            'order is insertion order. Schedule violations are confirmed by replaying the schedule in a fresh process.',
+            'DESIGN.md 3/C15'),
 }
 
 NOT_BUILT_REASON = 'check not built yet (work in progress in this session); no claim made'
